@@ -317,6 +317,17 @@ class Norm:
             return Norm._ac_cache[key]
         r = t
         bs = eng.by_path.get(t[1]) or eng.by_path.get(getattr(eng, "ac_def", {}).get(t[1], ""))
+        inst = None
+        if not bs and len(t) > 2 and t[2]:
+            # an instantiation `Kmer::<Dna, K, usize>::BITS` of a generic associated const `Kmer::<A, K, S>::BITS`: its body with
+            # the generic arguments put in (the codec's width where the codec is concrete)
+            strip = lambda x: re.sub(r"::<[^<>]*(?:<[^<>]*>[^<>]*)*>", "", x)
+            cands = [k for k, v in eng.by_path.items() if v and v[0]["kind"].startswith("AssocConst") and strip(k) == strip(t[1]) and k != t[1]]
+            if len(cands) == 1:
+                bs = eng.by_path[cands[0]]
+                gens = [g for g in (bs[0].get("generics") or []) if not g.startswith("'") and not g.startswith("<")]
+                if len(gens) == len(t[2]):
+                    inst = dict(zip(gens, t[2]))
         if bs and bs[0]["kind"].startswith("AssocConst"):
             import terms
             try:
@@ -325,6 +336,21 @@ class Norm:
                 if len(rets) == 1 and not rets[0].guards:
                     Norm._ac_cache[key] = t
                     r = Norm(env=None).norm(rets[0].ret)
+                    if inst is not None:
+                        codec = inst.get("A")
+                        width = None
+                        if codec and codec != "A":
+                            for e in (getattr(eng, "evals", {}) or {}).get("<%s as codec::Codec>::BITS" % codec, []):
+                                if "val" in e:
+                                    width = int(e["val"])
+                        if width is not None:
+                            def sub(x):
+                                if x == ("BITS",):
+                                    return ("int", width, "usize")
+                                if isinstance(x, tuple):
+                                    return tuple(sub(y) if isinstance(y, tuple) else y for y in x)
+                                return x
+                            r = sub(r)
             except Exception:
                 r = t
         Norm._ac_cache[key] = r
